@@ -128,6 +128,8 @@ impl<'a> LTr<'a> {
                 self.emit(format!("| .panic => {ex}"));
                 Ok((**inner).clone())
             }
+            LTy::Opt(inner) => self.match_opt(m, &scrut, inner, lhs),
+            LTy::Int(_) => self.match_lit(m, &scrut, lhs),
             LTy::Ext(en) if ext_enum(en).is_some() => {
                 let variants = ext_enum(en).unwrap();
                 self.emit(head);
